@@ -23,7 +23,7 @@ ASSUMPTIONS = [
     "virtual clock; AF_UNIX socketpairs as in C04",
     "a 'probe' of an entry point is a maximal run of identical frames with no delivery in between",
 ]
-MUST = ["prefix_connections_refused", "prefix_idle_connection_dropped", "loop_change_previous_loop_open", "two_piece_answer_in_time", "lone_fragment_every_attempt", "slow_answer_in_time", "full_timeout_after_corrupt_answer", "final_silent_exact", "prefix_success_after_drops", "prefix_exhausted", "prefix_rejected", "prefix_send_error",
+MUST = ["same_command_repeated", "prefix_connections_refused", "prefix_idle_connection_dropped", "loop_change_previous_loop_open", "two_piece_answer_in_time", "lone_fragment_every_attempt", "slow_answer_in_time", "full_timeout_after_corrupt_answer", "final_silent_exact", "prefix_success_after_drops", "prefix_exhausted", "prefix_rejected", "prefix_send_error",
         "prefix_recv_error", "loop_change", "connect_probe", "discover_probe", "search_probe", "search_answered", "detected_family_probe",
         "connected_then_silent"]
 EXHAUSTIVE = {"quick": True, "thorough": True}
@@ -36,6 +36,11 @@ def classes(R):
     cs += [f"ok{k}" for k in range(1, R + 1)]
     cs += [f"rej{j}" for j in range(0, R + 1)]
     return cs
+
+
+# classes whose script length per request does not depend on how many transmissions the library makes (needed when one register
+# carries the scripts of several requests one after the other)
+SAME_OK = {"ok0", "okslow", "okfrag", "exh", "fragexh", "rej0"} | {f"ok{k}" for k in range(1, 6)} | {f"rej{k}" for k in range(1, 6)}
 
 
 def script_for(cls, R):
@@ -68,13 +73,14 @@ def script_for(cls, R):
     raise ValueError(cls)
 
 
-def scenario(transport, ka, T, R, prefix, newloop):
+def scenario(transport, ka, T, R, prefix, newloop, same_reg=False):
     framing = "rtu" if transport == "udp" else "tcp"
     by_reg = {}
     groups = []
     for i, cls in enumerate(prefix):
-        reg = 100 + i
-        by_reg[reg] = [(["delay", 0.8 * T] if x == ["delay", "0.8T"] else (["delay", 0.6 * T] if x == ["delay", "0.6T"] else
+        reg = 100 if same_reg else 100 + i
+        by_reg.setdefault(reg, [])
+        by_reg[reg] += [(["delay", 0.8 * T] if x == ["delay", "0.8T"] else (["delay", 0.6 * T] if x == ["delay", "0.6T"] else
                         (["frag2", 5 if framing == "rtu" else 9, 0.3 * T] if x == ["frag2", None, "0.3T"] else x)))
                        for x in script_for(cls, R)]
         steps = []
@@ -88,11 +94,11 @@ def scenario(transport, ka, T, R, prefix, newloop):
         if (i + len(prefix)) % 2 == 1:
             steps.append(["sleep", 0.4 * T])        # the next request starts 0.4 T later (stale timers would fire inside it)
         groups.append(steps)
-    final_reg = 100 + len(prefix)
-    by_reg[final_reg] = []
+    final_reg = 100 if same_reg else 100 + len(prefix)
+    by_reg.setdefault(final_reg, [])
     groups.append([["read", final_reg, 2]])
     sc = {"transport": transport, "framing": framing, "keep_alive": ka, "T": T, "R": R, "by_reg": by_reg,
-          "after": "drop", "prefix": list(prefix), "newloop": newloop, "hops": (len(prefix) + sum(map(len, prefix))) % 4}
+          "after": "drop", "prefix": list(prefix), "newloop": newloop, "same_reg": same_reg, "hops": (len(prefix) + sum(map(len, prefix))) % 4}
     if newloop:
         sc["segments"] = [[{"start": 0.0, "steps": g}] for g in groups]
         if newloop == "open":       # new_event_loop() + run_until_complete(): the previous loop objects are still open
@@ -405,6 +411,10 @@ def run_shard(spec):
             for prefix in itertools.product(cs, repeat=d):
                 sc = scenario(spec["transport"], spec["ka"], spec["T"], spec["R"], list(prefix), spec["newloop"])
                 run_history(sc, part)
+                if d in (1, 2) and not spec["newloop"] and all(c in SAME_OK for c in prefix):
+                    # the same history with every request being the SAME command (an unchanged poll repeated)
+                    run_history(scenario(spec["transport"], spec["ka"], spec["T"], spec["R"], list(prefix), False, same_reg=True), part)
+                    part.count("same_command_repeated")
     else:
         ts = (1, 2, 3)
         rs = (0, 1, 2, 3)
